@@ -6,6 +6,7 @@ package main
 import (
 	"fmt"
 	"go/ast"
+	"go/constant"
 	"go/token"
 	"go/types"
 	"strings"
@@ -51,6 +52,43 @@ func ruleR2pPredicate(c *Ctx) []Obligation {
 			pc.members[f] = map[string]bool{}
 		}
 		pc.members[f][u.fd.Name.Name] = true
+	}
+	// bool helpers of the same package that call a member of a function family (`anyExprCanControlLoop(list)`) fold the
+	// family's answer over their argument: they count as members (their own completeness is not checked here)
+	for fam, ms := range pc.members {
+		if !c.HasPkg(relPkg(fam)) {
+			continue // method families of the AST packages are keyed by method name
+		}
+		p := c.Pkg(relPkg(fam))
+		for changed := true; changed; {
+			changed = false
+			for _, fd := range AllFuncDecls(p) {
+				fn, _ := p.TypesInfo.Defs[fd.Name].(*types.Func)
+				if fn == nil || ms[fd.Name.Name] {
+					continue
+				}
+				sg := fn.Type().(*types.Signature)
+				if sg.Results().Len() != 1 {
+					continue
+				}
+				if b, ok := types.Unalias(sg.Results().At(0).Type()).Underlying().(*types.Basic); !ok || b.Kind() != types.Bool {
+					continue
+				}
+				calls := false
+				ast.Inspect(fd.Body, func(n ast.Node) bool {
+					if call, ok := n.(*ast.CallExpr); ok {
+						if cal := CalleeOf(p.TypesInfo, call); cal != nil && cal.Pkg() == p.Types && ms[cal.Name()] {
+							calls = true
+						}
+					}
+					return !calls
+				})
+				if calls {
+					ms[fd.Name.Name] = true
+					changed = true
+				}
+			}
+		}
 	}
 	var obs []Obligation
 	seen := map[string]bool{}
@@ -110,6 +148,12 @@ func (pc *r2pPredCtx) requirements(u *travUnit, root string) (reqs []r2pPredReq,
 // rootOf: the access path that stands for the handled node inside the unit.
 func (pc *r2pPredCtx) rootOf(u *travUnit, env *r2pEnv) string {
 	switch {
+	case u.clause != nil && u.scope.subject != nil:
+		// the dispatch subject as R-traversal resolved it (also through `kind := node.Kind(); switch kind`)
+		if p, ok := env.roots[u.scope.subject]; ok {
+			return p
+		}
+		return u.scope.subject.Name()
 	case u.clause != nil:
 		switch sw := u.hostSwitch.(type) {
 		case *ast.SwitchStmt:
@@ -208,6 +252,9 @@ func (pc *r2pPredCtx) unit(u *travUnit) []Obligation {
 	var classify func(st *r2pState, x ast.Expr, insp map[string]bool) (r2pRetKind, bool)
 	classify = func(st *r2pState, x ast.Expr, insp map[string]bool) (r2pRetKind, bool) {
 		x = ast.Unparen(x)
+		if tv, ok := info.Types[x]; ok && tv.Value != nil && tv.Value.Kind() == constant.Bool {
+			return r2pRetConst, constant.BoolVal(tv.Value) // true / false / a named bool constant
+		}
 		if id, ok := x.(*ast.Ident); ok {
 			if id.Name == "true" && info.Uses[id] == types.Universe.Lookup("true") {
 				return r2pRetConst, true
@@ -320,6 +367,7 @@ func (pc *r2pPredCtx) unit(u *travUnit) []Obligation {
 		OnStmt: func(st *r2pState, s ast.Stmt) (*r2pState, bool) {
 			switch x := s.(type) {
 			case *ast.AssignStmt:
+				env.noteFieldStores(st, x)
 				if len(x.Lhs) == len(x.Rhs) {
 					for i, l := range x.Lhs {
 						id, ok := ast.Unparen(l).(*ast.Ident)
